@@ -713,7 +713,13 @@ type WaitGroup struct {
 }
 
 func (wg *WaitGroup) Add(delta int) {
-	if s := cur(); s != nil {
+	s := cur()
+	if s != nil && s.me() == nil && !wg.ctl {
+		// a goroutine that is no thread of the running exploration (a straggler of an uncontrolled use of the package) on a
+		// wait group that was never counted under a scheduler: plain semantics
+		s = nil
+	}
+	if s != nil {
 		s.mu.Lock()
 		ab := s.aborted
 		if !ab {
